@@ -1,6 +1,6 @@
 use crate::{
     ast::*,
-    error::{ParseErrorMessage, ParserError, SplError},
+    error::{ParseErrorMessage, ParserError, ParserErrorKind, SplError},
     parser::utility::{
         affected, confusable, expect, ignore_until0, ignore_until1, info, many, parse_list,
     },
@@ -569,9 +569,18 @@ impl Parser for ParameterDeclaration {
         }
 
         match this {
-            Some(Self::Valid { .. }) => {
-                affected(this, alt((|input| parse_valid(this, input), parse_error)))(input)
-            }
+            Some(Self::Valid { .. }) => affected(this, |input: TokenStream<'a>| {
+                match parse_valid(this, input.clone()) {
+                    // A part of the old parameter cannot be reused.
+                    // This is no syntax error, the parameter must be parsed from scratch.
+                    Err(nom::Err::Error(ParserError {
+                        kind: ParserErrorKind::Affected,
+                        ..
+                    })) => alt((|input| parse_valid(None, input), parse_error))(input),
+                    Err(_) => parse_error(input),
+                    result => result,
+                }
+            })(input),
             _ => alt((|input| parse_valid(None, input), parse_error))(input),
         }
     }
@@ -619,10 +628,18 @@ impl Parser for Argument {
         }
 
         let (input, expr) = match this {
-            Some(Self::Valid(expr)) => affected(
-                Some(expr),
-                alt((|input| parse_valid(Some(expr), input), parse_error)),
-            )(input)?,
+            Some(Self::Valid(expr)) => affected(Some(expr), |input: TokenStream<'a>| {
+                match parse_valid(Some(expr), input.clone()) {
+                    // A part of the old argument cannot be reused.
+                    // This is no syntax error, the argument must be parsed from scratch.
+                    Err(nom::Err::Error(ParserError {
+                        kind: ParserErrorKind::Affected,
+                        ..
+                    })) => alt((|input| parse_valid(None, input), parse_error))(input),
+                    Err(_) => parse_error(input),
+                    result => result,
+                }
+            })(input)?,
             _ => alt((|input| parse_valid(None, input), parse_error))(input)?,
         };
         Ok((input, expr.into()))
@@ -1057,7 +1074,9 @@ impl<T: Parser> Parser for Reference<T> {
             Err(nom::Err::Error(mut err)) => {
                 // recover backup
                 err.input.reference_pos = reference_backup;
-                err.input.inc_references.pop();
+                if some_this {
+                    err.input.inc_references.pop();
+                }
                 Err(nom::Err::Error(err))
             }
             Err(_) => panic!("Incomplete data"),
